@@ -169,7 +169,16 @@ def file_step(draw):
                                    ("m/main.xbb", "sub.xbb", "../sub.xbb", "m"), ("m/main.xbb", "m/sub.xbb", "sub.xbb", ".")]))
     main_rel, sub_rel, inc_text, cwd = layout
     main = 'name main\nversion 1.0\ninclude "%s"\n%s%s\n' % (inc_text, extra, call)
+    if draw(st.integers(0, 5)) == 0:
+        # the include file does not exist next to this main script (directory 'q' is never written by any step):
+        # files of the same name loaded earlier from other directories must not be found instead
+        return {"kind": "load", "files": {"q/main.xbb": 'name main\nversion 1.0\ninclude "%s"\n%s%s\n' % (posixpath_basename(sub_rel), extra, call)},
+                "main": "q/main.xbb", "cwd": draw(st.sampled_from([".", "q"]))}
     return {"kind": "load", "files": {main_rel: main, sub_rel: sub}, "main": main_rel, "cwd": cwd}
+
+
+def posixpath_basename(p):
+    return p.rsplit("/", 1)[-1]
 
 
 @st.composite
